@@ -58,10 +58,18 @@ func (e *Environment) Get(name string) Object {
 }
 
 func (e *Environment) evalNameWithIndex(name string) []string {
+	return e.evalNameWithIndexOnce(name, map[string]bool{})
+}
+
+// evalNameWithIndexOnce does not expand an alias inside its own expansion, so
+// that aliases whose values name one another (#a -> "#a") do not recurse forever
+func (e *Environment) evalNameWithIndexOnce(name string, expanding map[string]bool) []string {
 	names := strings.Split(name, ".")
 	for _, n := range names {
-		if alias, ok := e.Aliases[n]; ok {
-			names = append(names, e.evalNameWithIndex(alias)...)
+		if alias, ok := e.Aliases[n]; ok && !expanding[n] {
+			expanding[n] = true
+			names = append(names, e.evalNameWithIndexOnce(alias, expanding)...)
+			delete(expanding, n)
 		}
 	}
 
